@@ -86,3 +86,22 @@ Example C03_hw_nonvacuous :
   | Err _ => false
   end = true.
 Proof. vm_compute. reflexivity. Qed.
+
+(* Part 4: the same with the wiring hypothesis replaced by the decidable side conditions of C05_model_signals. *)
+From FV Require Import Side WireProofs.
+Theorem C03_hw_delivered_model :
+  forall (d : desc) (g : graph) (c : compiled) (ri : rinfo) (n : netlist) (t : cni) (nt : net),
+    nt = Req \/ nt = Rsp ->
+    build d = Ok g -> compile d g = Ok c -> gen_routing_info sp_reference c = Ok ri -> emit c ri = Ok n ->
+    d_algo d = SRC -> In t (c_nis c) ->
+    names_sepb g nt = true -> single_attachb g c = true -> links_typedb g c = true ->
+    forall s0 id ps p, In s0 (c_nis c) -> gen_route sp_reference c s0 t = Ok (id, Some ps) ->
+      sp_reference g (cn_name s0) (cn_name t) = Some p -> snd (attach nt s0) = hd "" (tl p) ->
+      let tr := send n nt (emit_ni d (ri_offset ri) s0) (hdr_of_word n (word_value ps)) in
+      t_out tr = Delivered (cn_name t) (HRoute 0) /\ length (t_rts tr) = length ps /\ (2 + length ps = length p)%nat.
+Proof.
+  intros d g c ri n t nt Hnt Hb Hc Hri He Ha Ht H1 H2 H3.
+  exact (hw_src_send_model d g c ri n t nt Hnt Hb Hc Hri He Ha Ht
+           (names_sepb_ok g nt H1) (single_attachb_ok g c H2) (links_typedb_ok g c H3)).
+Qed.
+Print Assumptions C03_hw_delivered_model.
